@@ -320,6 +320,32 @@ def _t2(ctx: Context) -> None:
         ck.unknown("C05.T2", f"data_received: expected one frame loop, found {len(loops)}", f.loc())
         return
     loop = loops[0].ast
+    # ---- frames consumed by advancing a local offset, the buffer trimmed ONCE by `del buffer[:offset]`: whatever else this
+    # form does, every normal way out of the function after the offset moved must pass that trim - an exit that skips it
+    # (the classic: the untouched `return` of the "not enough data yet" test) leaves frames that were already delivered in
+    # the buffer, and the next read decrypts them again with a counter that has moved on
+    du0 = T.du(cfg)
+    in_loop0 = lambda n_: any(fr[0] == "loop" and fr[1] is loop and fr[2] == "body" for fr in n_.frames)  # noqa: E731
+    for dn_ in cfg.nodes:
+        if dn_.kind != "stmt" or not isinstance(dn_.ast, ast.Delete) or in_loop0(dn_):
+            continue
+        for tg in dn_.ast.targets:
+            if not (isinstance(tg, ast.Subscript) and isinstance(tg.slice, ast.Slice) and tg.slice.lower is None and isinstance(tg.slice.upper, ast.Name)
+                    and strip_sites(T.of(cfg, dn_, tg.value)) == buf):
+                continue
+            off = tg.slice.upper.id
+            moves = [cfg.nodes[i] for i, dd in du0.defs.items() if off in dd and i != cfg.entry.id and in_loop0(cfg.nodes[i])]
+            if not moves:
+                continue
+            wit = None
+            for mv in moves:
+                for e_ in ctx.normal_out(cfg, mv):
+                    wit = wit or cfg.find_path(e_[1], {cfg.exit.id}, avoid_nodes={dn_.id}, edge_ok=lambda u, d, l, x: l != "x")
+            ck.check("C05.T2", wit is None, f"the buffer is trimmed by `del buffer[:{off}]` on every normal way out after `{off}` moved past a frame",
+                     f"{ctx.fkey(f)}:deferred-trim-skipped",
+                     f"data_received consumes frames by advancing `{off}` and trims the buffer once with `{dn_.text()}`, but a normal exit is reachable after `{off}` moved "
+                     "without passing that trim: frames already decrypted and delivered stay in the buffer and are decrypted again on the next read (the counter has "
+                     "moved on, so the session ends with a decryption error)", ctx.loc(f, dn_), cfg.render_path(wit) if wit else None)
     lenbuf = ("call", ("glob", "len"), (buf,), ())
     # guard
     gt = [n for n in cfg.nodes if n.kind == "test" and any(n.exprs[0] is x for x in ast.walk(loop.test))]
